@@ -646,6 +646,29 @@ func gen(t *rapid.T) Case {
 	return c
 }
 
+// genCloseRace: short sessions that both sides end at once (the window in which the close callback
+// could fire twice or an operation could be missed is tens of microseconds wide, so it gets many tries).
+func genCloseRace(t *rapid.T) Case {
+	c := Case{
+		Proto:       rapid.SampledFrom([]string{"graphql-ws", "graphql-transport-ws"}).Draw(t, "proto"),
+		InitFunc:    rapid.SampledFrom([]string{"none", "accept"}).Draw(t, "initfunc"),
+		KeepAliveUS: rapid.SampledFrom([]int{0, 1000}).Draw(t, "ka"),
+	}
+	c.Steps = append(c.Steps, Step{Kind: "init", Payload: `{}`})
+	if rapid.Bool().Draw(t, "op") {
+		c.Steps = append(c.Steps, Step{Kind: "start", ID: "1", Op: "subscription", Events: rapid.IntRange(0, 2).Draw(t, "events"), GapUS: 50, Endless: rapid.Bool().Draw(t, "endless")})
+	}
+	c.Steps = append(c.Steps, Step{Kind: "raceclose", DelayUS: rapid.SampledFrom([]int{0, 100, 500}).Draw(t, "delay"),
+		Op:     rapid.SampledFrom([]string{"terminate", "invalid", "init"}).Draw(t, "raceact"),
+		Events: rapid.IntRange(0, 1).Draw(t, "racefirst"),
+		GapUS:  rapid.SampledFrom([]int{0, 0, 5, 10, 20, 30, 45, 60, 80, 100, 150, 200}).Draw(t, "racegap")})
+	return c
+}
+
+func TestCloseRace(t *testing.T) {
+	vfrun.Run(t, vfrun.Prop[Case]{Property: "C11", Name: "TestCloseRace", Gen: genCloseRace, Check: check}, vfrun.N(1200, 12000))
+}
+
 func TestSessions(t *testing.T) {
 	vfrun.Run(t, vfrun.Prop[Case]{Property: "C11", Name: "TestSessions", Gen: gen, Check: check}, vfrun.N(1000, 10000))
 }
